@@ -7,6 +7,7 @@ __email__ = "arenas.guerrero.julian@outlook.com"
 
 
 import logging
+import re
 import pandas as pd
 
 from ..constants import *
@@ -19,6 +20,9 @@ SQL_RDF_DATATYPE = {
     'BINARY': XSD_HEX_BINARY,
     'VARBINARY': XSD_HEX_BINARY,
     'BLOB': XSD_HEX_BINARY,
+    'TINYBLOB': XSD_HEX_BINARY,
+    'MEDIUMBLOB': XSD_HEX_BINARY,
+    'LONGBLOB': XSD_HEX_BINARY,
     'BFILE': XSD_HEX_BINARY,
     'RAW': XSD_HEX_BINARY,
     'LONG RAW': XSD_HEX_BINARY,
@@ -26,6 +30,7 @@ SQL_RDF_DATATYPE = {
     'INTEGER': XSD_INTEGER,
     'INT': XSD_INTEGER,
     'SMALLINT': XSD_INTEGER,
+    'MEDIUMINT': XSD_INTEGER,
     'INT8': XSD_INTEGER,
     'INT4': XSD_INTEGER,
     'BIGINT': XSD_INTEGER,
@@ -117,10 +122,15 @@ def _get_column_table_datatype(config, source_name, table_name, column_name):
         return None
 
     data_type = data_type.upper()
-    for k, v in SQL_RDF_DATATYPE.items():
-        if k in data_type:
-            return v
-    return None
+    # the longest type name occurring as a whole word wins (TIMESTAMP is not TIME, TINYINT and INTERVAL are not INT)
+    matched_type = None
+    for k in SQL_RDF_DATATYPE:
+        if re.search('(?<![A-Z0-9_])' + re.escape(k) + '(?![A-Z_])', data_type):
+            if matched_type is None or len(k) > len(matched_type):
+                matched_type = k
+    if matched_type is None:
+        return None
+    return SQL_RDF_DATATYPE[matched_type]
 
 
 def get_rdb_reference_datatype(config, rml_rule, reference):
